@@ -144,6 +144,9 @@ func c16Case(w *rt.W, st *c16State, f *c16Formatter, vi, flag int, prefix []byte
 		}
 	}
 	st.prevNil = refOut
+	if len(prefix) < 64 {
+		foreignActivity(vi*7+flag+spare, "") // any other formatter or parser of the library may run in between
+	}
 	const guard = 8
 	backing := make([]byte, len(prefix)+spare+guard)
 	copy(backing, prefix)
